@@ -60,6 +60,14 @@ fn verif_native_directives() {
                 Ok(r) => if r != Ok(vec![v as u16]) { fail(&text, format!("expands to {:?}", r)); } }
         }
     }
+    // `.orig` takes any value that fits 16 bits, in decimal or hex; 65536 does not fit
+    for (text, want) in [(".orig #0", Some(0u16)), (".orig #12288", Some(0x3000)), (".orig #32767", Some(0x7FFF)), (".orig #32768", Some(0x8000)), (".orig #40000", Some(40000)),
+            (".orig #65535", Some(0xFFFF)), (".orig x0", Some(0)), (".orig x8000", Some(0x8000)), (".ORIG xFFFF", Some(0xFFFF)), (".orig #65536", None), (".orig x10000", None)] {
+        evaluated += 1;
+        let src = format!("{}\nret\n", text);
+        match verif_catch(|| image_of(leak(&src))) { Err(m) => fail(&src, format!("panic: {}", m)),
+            Ok(r) => if r.clone().ok().map(|img| img[0]) != want || (want.is_some() && r != Ok(vec![want.unwrap(), 0xC1C0])) { fail(&src, format!("assembles to {:04x?}, expected origin {:04x?}", r, want)); } }
+    }
     for n in [0usize, 1, 2, 7, 255, 256, 1000] {
         for text in [format!(".blkw #{}", n), format!("a .BLKW x{:X}", n)] {
             evaluated += 1;
